@@ -240,6 +240,21 @@ def tables() -> dict:
     t["lazyForwardCoder"] = bool(fu and fp)
     t["lazyStubAllowPostponed"] = not (du and dp)
     t["cacheGuards"] = guards
+    # walk direction of CodeBuilder.dataclass_fields: evaluate the iterable of its ancestor loop
+    # on a sample MRO [0 (the class itself), 1 (nearest), 2, 3 (farthest)]
+    walk = None
+    for node in ast.walk(ast.parse(_src("mashumaro/core/meta/code/builder.py"))):
+        if isinstance(node, ast.FunctionDef) and node.name == "dataclass_fields":
+            for sub in ast.walk(node):
+                if isinstance(sub, ast.For) and "__mro__" in ast.unparse(sub.iter):
+                    expr = ast.unparse(sub.iter).replace("self.cls.__mro__", "S").replace("cls.__mro__", "S")
+                    try:
+                        walk = [int(x) for x in eval(expr, {"S": (0, 1, 2, 3), "reversed": reversed, "list": list, "tuple": tuple})]  # noqa: S307 - expression from /repo's own source, names restricted
+                    except Exception:  # noqa
+                        walk = None
+                    break
+    t["mroWalkSample"] = walk if walk is not None else []
+    t["mroFarthestFirst"] = bool(walk) and walk == sorted(walk, reverse=True)
     t["cacheGuardOwnDict"] = len(guards) == 2 and all(g[1] == "if not '{}' in cls.__dict__:" for g in guards)
     return t
 
@@ -290,6 +305,9 @@ def render(t: dict) -> str:
     L.append("/-- the dialect caches are created under `if not '<cache>' in cls.__dict__:` (own namespace only) -/")
     L.append("def cacheGuardOwnDict : Bool := " + ("true" if t["cacheGuardOwnDict"] else "false"))
     L.append("def cacheGuards : List (String × String) := " + lean_list(t["cacheGuards"], lambda g: f"({lean_str(g[0])}, {lean_str(g[1])})"))
+    L.append("/-- `dataclass_fields` walks `cls.__mro__` from the farthest ancestor to the nearest, skipping the class itself -/")
+    L.append("def mroFarthestFirst : Bool := " + ("true" if t["mroFarthestFirst"] else "false"))
+    L.append("def mroWalkSample : List Nat := [" + ", ".join(str(x) for x in t["mroWalkSample"]) + "]")
     L.append("")
     L.append("end Mashu.Generated")
     return "\n".join(L) + "\n"
